@@ -71,6 +71,8 @@ def base_packets():
     P.append(hdr(9, 0x8180, 1, 2, 0, 4) + q + an_a + an_b + ar_a + ar_b + opt([(10, [1, 2, 3, 4, 5, 6, 7, 8]), (12, []), (3, [0xAA])]) + ar_c)
     # 9: the question asks for type 41 (the code of the OPT pseudo-record) and an OPT record with an option is present
     P.append(hdr(10, 0x8180, 1, 1, 0, 2) + name("q", "ex") + [0, 41, 0, 1] + rr(ptr(12), 1, 30, [7, 7, 7, 7]) + rr(name("g", "ex"), 28, 31, [0] * 10 + [255, 255, 192, 0, 2, 1]) + opt([(10, [9, 9])]))
+    # 10: a query whose question name is a pointer to offset 0: the id 0x0161 and the zero flag word spell the name "a."
+    P.append([0x01, 0x61, 0x00, 0x00, 0, 1, 0, 0, 0, 0, 0, 1, 0xC0, 0x00, 0, 1, 0, 1] + opt([(10, [1])]))
     return P
 
 
@@ -226,7 +228,7 @@ def histories(seed, tier, extra_packets=()):
     out = []
     so, co = simple_ops(), cursor_ops()
     # every single operation on every base packet (and on the two synthesised packets)
-    for b in bases[:10]:
+    for b in bases[:11]:
         for o in so + co:
             out.append(scen(b, [o]))
     for syn in ("empty", "example.com"):
@@ -240,13 +242,20 @@ def histories(seed, tier, extra_packets=()):
               cursor_op("AR", True, 1, [("delete", [])]), cursor_op("AN", False, 0, [("uncompress", [])]), cursor_op("AN", False, 0, [("delete", [])]),
               cursor_op("AR", True, 0, [("set_ttl", [1, 2, 128, 0])]), cursor_op("AR", True, 1, [("set_raw_name", name("a"))])]
     step = 3 if tier == "quick" else 1
-    for bi, b in enumerate(bases[:10]):
+    for bi, b in enumerate(bases[:11]):
         for fi, f in enumerate(firsts):
             seconds = (so + co)[(bi + fi) % step::step]
             if tier == "quick":
                 seconds = seconds[::4]
             for s2 in seconds:
                 out.append(scen(b, [f, s2]))
+    # a question name written through a pointer into the header (base 10): header setters whose new value keeps the
+    # name a name, around the question getters that fill the cache
+    hp = bases[10]
+    for setter in ({"op": "set_tid", "v": 0x0162}, {"op": "set_tid", "v": 0x0141}, {"op": "set_tid", "v": 0x0161}):
+        out.append(scen(hp, [{"op": "read_question"}, setter, {"op": "read_question"}]))
+        out.append(scen(hp, [setter, {"op": "read_question"}, {"op": "recompute"}, {"op": "read_question"}]))
+        out.append(scen(hp, [{"op": "read_question"}, setter, op_insert("AR", 0), {"op": "read_question"}]))
     # size limit: fill up with big records from every starting size
     big = [i for i, (t, r) in enumerate(record_menu()) if t.startswith("big.")][0]
     for b in bases[:3]:
